@@ -48,9 +48,10 @@ class Contract(object):
 
 class ClassDecl(object):
     """field table of a repository class: attribute name -> type descriptor"""
-    def __init__(self, file, name, fields, bases=(), invariant=None, pyname=None, external=False):
+    def __init__(self, file, name, fields, bases=(), invariant=None, pyname=None, external=False, stateful=False):
         self.file, self.name, self.fields, self.bases = file, name, dict(fields), tuple(bases)
         self.external = external
+        self.stateful = stateful        # a library object with mutable state: lives in a cell as one term (its abstract state); methods with modifies=['self'] replace it
         self.pyname = pyname or name       # several sidecar views of one Python class may exist (e.g. EAMPotential with a dict of densities)
         self.invariant = invariant      # lambda o(z3 term): [z3 Bool] — established by __init__, fields never reassigned
 
